@@ -236,6 +236,11 @@ func p2pCase(run *hx.Run, r *hx.Rng, t *Trace, k int) {
 	case 7:
 		data, kind = append([]byte{}, data...), "p2p-bit-flip"
 		data[r.Intn(len(data))] ^= 1 << uint(r.Intn(8))
+	case 8:
+		if r.Chance(25) {
+			// beyond maxEncodedMsgSize (the size guard runs before the network decoder)
+			data, kind = make([]byte, 9227600+300), "p2p-data-too-big"
+		}
 	}
 	c.ValidateP2P(data, topic, t.Time(k), kind)
 }
@@ -288,7 +293,15 @@ func replay(run *hx.Run, lines []string) {
 			}
 			tp, _ := kvOf(ws, "topic")
 			pd, _ := kvOf(ws, "pdata")
-			c.ValidateP2P(unhex(pd), string(unhex(tp)), parseNow(ws), "replay")
+			var pdata []byte
+			if strings.HasPrefix(pd, "z") {
+				var n int
+				fmt.Sscan(pd[1:], &n)
+				pdata = make([]byte, n)
+			} else {
+				pdata = unhex(pd)
+			}
+			c.ValidateP2P(pdata, string(unhex(tp)), parseNow(ws), "replay")
 		case "f":
 			fuzzReplay(run, ws)
 		case "k":
